@@ -338,7 +338,9 @@ def reader_case(ctx, data, sched, bufsize, crlf_only, label, aligned=False):
 
 
 def make_data(rng, small=False, crlf=True):
-    items = c02.make_items(rng, n=rng.randint(2, 5) if small else rng.randint(4, 14))
+    # (no foreign items QUOTING valid frames here: after a fault inside such an item a reader may resynchronise on the
+    # quoted frame, which the fault-free run never returns - the subsequence oracle below does not model that)
+    items = c02.make_items(rng, n=rng.randint(2, 5) if small else rng.randint(4, 14), quote=False)
     if rng.random() < 0.2:  # a sentence from a careless talker (CR CR LF, odd checksum characters) between the items
         for _try in range(8):
             line = streams.nmea(rng, 20, sloppy=True)
@@ -446,7 +448,7 @@ def run(ctx):
         reader_case(ctx, data, sched, bufsize, crlf, "random")
     # (B2) timeouts exactly between items, consumer resumes iteration on the same reader
     for it in range(ctx.n(600, 12000)):
-        items = c02.make_items(rng, n=rng.randint(3, 10))
+        items = c02.make_items(rng, n=rng.randint(3, 10), quote=False)
         data = b"".join(b for _, b, _ in items)
         bounds, off = [], 0
         for _, b, _ in items[:-1]:
